@@ -103,7 +103,14 @@ def reader_slices(func, var="line"):
     return out
 
 
+MCONV = "structure/io/mol/convert.py"
+
+
 def run(ctx):
+    # the record a structure is read from / written to is chosen by name; only None means "the first record" - a blank title
+    # line is a legal record name
+    from ..lints import optional_numbers_tested_for_none
+    optional_numbers_tested_for_none(ctx, MCONV, "R5.record-name-none-only", 1)
     # a refused structure must not leave a half-written file object behind (the connection table is built before anything is replaced)
     from ..lints import raising_functions, validation_before_mutation
     _raising = raising_functions(ctx, [CTAB, MOL, SDF, HEAD])
@@ -498,6 +505,8 @@ def run(ctx):
         return out.strip()
 
     jss = [n for n in ast.walk(ks) if isinstance(n, ast.JoinedStr)]
+    ctx.need(bool(jss), "the components of Metadata.Key.serialize written as f-strings (templates applied through str.format in a "
+                        "comprehension cannot be decided here)")
     emitted = sorted(form(n) for n in jss)
     own_sep = [isinstance(n.values[-1], ast.Constant) and n.values[-1].value.endswith(" ") for n in jss]
     common_sep = any(isinstance(n, ast.BinOp) and isinstance(n.op, ast.Add) and isinstance(n.right, ast.Constant) and n.right.value == " "
